@@ -58,6 +58,8 @@ def main():
     ap.add_argument("--checks")
     ap.add_argument("--tiers", default="quick,thorough")
     ap.add_argument("--needs", default="")
+    ap.add_argument("--skip-confirm", action="store_true",
+                    help="do not rebuild the suite and the demonstration (confirmed by an earlier evaluation)")
     args = ap.parse_args()
     checks = (args.checks or args.prop).split(",")
     seed_dir = os.path.abspath(args.seed_dir)
@@ -71,21 +73,38 @@ def main():
     meta = {"property": args.prop, "name": args.name, "base_commit": sh("git -C /repo rev-parse --short HEAD")[1].strip(),
             "ran": [], "detected_by": {}, "date": time.strftime("%Y-%m-%d")}
     try:
-        rc0, out0 = demo(seed_dir, wt)
-        meta["demo_on_clean_tree"] = "passes" if rc0 == 0 else f"FAILS (exit {rc0})"
-        rc, out = sh(f"git -C {wt} apply {seed_dir}/patch.diff")
-        if rc:
-            meta["apply"] = "FAILED: " + out[-500:]
-            print(json.dumps(meta, indent=1))
-            sys.exit(2)
-        ok, sout = suite(wt)
-        meta["suite_with_change"] = "passes (only the known Nitro.dl_test failure)" if ok else "FAILS: " + sout[-800:]
-        rc1, out1 = demo(seed_dir, wt)
-        meta["demo_with_change"] = f"fails (exit {rc1})" if rc1 != 0 else "PASSES (change not demonstrated)"
-        meta["demo_output_with_change"] = out1[-600:]
-        shutil.rmtree(f"{wt}/_build", ignore_errors=True)
-        valid = rc0 == 0 and ok and rc1 != 0
-        meta["confirmed"] = valid
+        prev_meta = {}
+        try:
+            prev_meta = json.load(open(os.path.join(VERIF, "seeded", args.name, "meta.json")))
+        except Exception:
+            pass
+        if args.skip_confirm and prev_meta.get("confirmed"):
+            rc, out = sh(f"git -C {wt} apply {seed_dir}/patch.diff")
+            if rc:
+                meta["apply"] = "FAILED: " + out[-500:]
+                print(json.dumps(meta, indent=1))
+                sys.exit(2)
+            for k in ("demo_on_clean_tree", "suite_with_change", "demo_with_change", "demo_output_with_change",
+                      "confirmed"):
+                if k in prev_meta:
+                    meta[k] = prev_meta[k]
+            meta["confirmation"] = "taken over from the evaluation of " + str(prev_meta.get("date"))
+        else:
+            rc0, out0 = demo(seed_dir, wt)
+            meta["demo_on_clean_tree"] = "passes" if rc0 == 0 else f"FAILS (exit {rc0})"
+            rc, out = sh(f"git -C {wt} apply {seed_dir}/patch.diff")
+            if rc:
+                meta["apply"] = "FAILED: " + out[-500:]
+                print(json.dumps(meta, indent=1))
+                sys.exit(2)
+            ok, sout = suite(wt)
+            meta["suite_with_change"] = "passes (only the known Nitro.dl_test failure)" if ok else "FAILS: " + sout[-800:]
+            rc1, out1 = demo(seed_dir, wt)
+            meta["demo_with_change"] = f"fails (exit {rc1})" if rc1 != 0 else "PASSES (change not demonstrated)"
+            meta["demo_output_with_change"] = out1[-600:]
+            shutil.rmtree(f"{wt}/_build", ignore_errors=True)
+            valid = rc0 == 0 and ok and rc1 != 0
+            meta["confirmed"] = valid
         for chk in checks:
             res = {}
             for tier in args.tiers.split(","):
